@@ -24,6 +24,7 @@ func runC17(c *Ctx) {
 	runC17Two(c)
 	runC17Protocol(c)
 	runC17Followup(c)
+	runC17Cancelled(c)
 }
 
 // ---- (c) two branches prepared over one pooled connection, then phase two for each: every phase-two
@@ -403,7 +404,9 @@ func runC17Protocol(c *Ctx) {
 		if len(brs) > 0 {
 			b := brs[len(brs)-1]
 			idText = fmt.Sprintf("%s-%d", xid, b.BranchID)
-			if w.Eng.XAState(idText) == "PREPARED" {
+			// a coordinator takes every registered branch through phase two unless the client reported it as failed
+			// in phase one: a branch that was rolled back and not reported is "followed by a commit"
+			if w.Eng.XAState(idText) == "PREPARED" || !w.coord.ReportedFailed(xid)[b.BranchID] {
 				if forget {
 					if v, ok := mgr.GetCachedResources().Load(b.ResourceID); ok {
 						v.(*sql2.DBResource).Release(idText)
@@ -538,6 +541,18 @@ func runC17Protocol(c *Ctx) {
 				}
 				xs = "rolledback"
 			}
+		}
+		finishes := 0
+		for _, t := range toks {
+			if strings.HasPrefix(t, "C") || strings.HasPrefix(t, "R") {
+				finishes++
+			}
+			if fault != "none" && strings.HasPrefix(t, "C") {
+				fail("commit_sent_after_failure", "the branch failed before its prepare, was rolled back and not reported: the coordinator takes it through phase two: "+strings.Join(toks, " "))
+			}
+		}
+		if finishes > 1 {
+			fail("branch_finished_twice", strings.Join(toks, " "))
 		}
 		if fault != "none" {
 			if execErr == nil {
